@@ -798,12 +798,31 @@ fn check<S: Sim>(o: Opts) {
             .arg(&p)
             .output()
             .expect("spawn replay");
+        let mut p = p;
         if out.status.code() != Some(1) {
-            println!(
-                "HARNESS-ERROR: replay {p:?} did not reproduce in a fresh process (exit {:?})",
-                out.status.code()
-            );
-            std::process::exit(2);
+            // State that the code under test keeps across the runs of one process (a static cache) can make the
+            // minimiser drop the very steps that had primed it: the minimised plan then fails only in the process that
+            // minimised it. The plan as it was found is written out instead and must reproduce on its own.
+            let rf0 = ReplayFile {
+                signature: v.signature.clone(),
+                detail: v.detail.clone(),
+                minimised: false,
+                plan: plan_json.clone(),
+                log: vec![],
+                ..rf
+            };
+            let _ = std::fs::remove_file(&p);
+            p = write_replay(&verif_dir().join("replays"), &rf0);
+            let out0 = std::process::Command::new(std::env::current_exe().expect("exe")).arg("replay").arg(&p).output().expect("spawn replay");
+            if out0.status.code() != Some(1) {
+                println!(
+                    "HARNESS-ERROR: replay {p:?} did not reproduce in a fresh process (minimised plan: exit {:?}, plan as found: exit {:?})",
+                    out.status.code(),
+                    out0.status.code()
+                );
+                std::process::exit(2);
+            }
+            println!("note: the minimised plan reproduces only in the process that minimised it (state kept across runs by the code under test); the replay file holds the plan as it was found");
         }
         violation_summary = json!({"run": run, "rule": v.rule, "signature": mv.signature, "detail": mv.detail, "replay": p});
         replay_path = Some(p);
